@@ -492,7 +492,8 @@ def s3(facts, tier):
             lens = {s for s in delta if str(s).startswith("len(")} or {"len(frame.keyvals)"}
             want = _t_add({next(iter(lens)): 1}, recs)
             ok = delta == want
-            yield ob(["C17"], "S3", f"no-element-path#{na}:cursor-advance", "pass" if ok else "violation", where(f),
+            opaque = any(str(sy).startswith("?") for sy in delta)      # arithmetic outside the affine fragment (checked_*, min, ...)
+            yield ob(["C17"], "S3", f"no-element-path#{na}:cursor-advance", "pass" if ok else ("undecided" if opaque else "violation"), where(f),
                      (f"path [{'; '.join(st['trace'])}]: cursor advances by {_t_show(delta)}" if ok else
                       f"total_index_impl, path [{'; '.join(st['trace'])}]: a frame that yields no element advances the flat cursor by "
                       f"{_t_show(delta)} instead of {_t_show(want)}: indices handed to the enclosing frames are shifted, so total_index "
@@ -508,7 +509,8 @@ def s3(facts, tier):
             it = ap.ev(ix["args"][1] if ix.get("k") == "Call" else ix["i"], st)
             want = _t_add(_t_add({idx: 1}, {"cur0": 1}, -1), recs, -1)
             ok = it == want
-            yield ob(["C17"], "S3", f"element-path#{nb}:frame-index", "pass" if ok else ("undecided" if it is None else "violation"), where(f),
+            yield ob(["C17"], "S3", f"element-path#{nb}:frame-index", "pass" if ok else
+                     ("undecided" if it is None or any(str(sy).startswith("?") for sy in it) else "violation"), where(f),
                      f"path [{'; '.join(st['trace'])}]: returns keyvals[{_t_show(it) if it is not None else '?'}]" if ok else
                      f"total_index_impl, path [{'; '.join(st['trace'])}]: returns keyvals[{_t_show(it) if it is not None else '?'}], "
                      f"expected keyvals[{_t_show(want)}]")
